@@ -59,7 +59,8 @@ def monitor(scn, sobj, rep, sf, ck):
         bridged = fr[6:12] != fr[24:30]
         cls = ("tos%d" % tos, "bridged" if bridged else "direct", "gen0" if dgen == 0 else "gen",
                "gen-changed" if last_gen[tos] not in (None, dgen) else "gen-first-or-same",
-               "other-service-seen" if last_gen[1 - tos] is not None else "only-this-service")
+               "other-service-seen" if last_gen[1 - tos] is not None else "only-this-service",
+               "delivered-as-unicast" if fr[0:6] != W.BCAST else "delivered-as-broadcast")
         classes.add(cls)
         last_gen[tos] = dgen
         sends = inp.sends()
@@ -110,7 +111,8 @@ def run(ctx):
     rep.rule = ("random histories (both services interleaved, generations in {0,1,0xFF,0xFF00,0xFFFF,random}, bridged and "
                 "direct mappers, Hellos heard, Resets); every Discover the C05 reference model marks accepted is judged; "
                 "distinct_nontrivial counts distinct (scenario, class) pairs where class = (service, bridged?, generation "
-                "zero?, generation changed since the previous Discover of this service?, other service seen before?)")
+                "zero?, generation changed since the previous Discover of this service?, other service seen before?, Discover "
+                "delivered to the broadcast address or as unicast to this station?)")
     rep.assumptions = ["acceptance is taken from the C05 reference model; model state 'unknown' yields no expectation"]
     binary = H.build(ctx.work, "asan")
     scns = make_scenarios(ctx, ctx.n(1500, 30000), 50)
@@ -122,4 +124,5 @@ def run(ctx):
     rep.need("generation-zero", seen(["gen0"]), 50)
     rep.need("generation-changed", seen(["gen-changed"]), 100)
     rep.need("quick-after-topology-seen", seen(["tos1", "other-service-seen"]), 50)
+    rep.need("discover-delivered-as-unicast", seen(["delivered-as-unicast"]), 50)
     rep.need("clock_gaps_between_frames", rep.counters.get("clock_gaps_between_frames", 0), 200)
